@@ -11,17 +11,36 @@ def plan(tier):
     pl.level = "proof"
     pl.units = [U("rename", "contracts.rename", "h_rename", (), setup=("contracts.rename", "setup_rename"),
                   replay=("contracts.rename_replay", "replay"))]
-    pl.functions = [("sievelib.managesieve", "Client.renamescript")]
+    # the callees' contracts the rename proof is built on: their status clauses are discharged here too, so that a change
+    # inside a callee that breaks what rename relies on (e.g. getscript no longer answering None on NO) fails under C14
+    for m in ("listscripts", "getscript", "putscript", "setactive", "deletescript"):
+        pl.units.append(U("callee.%s" % m, "contracts.client", "h_status", (m,), setup=("contracts.client", "setup_typestate"),
+                          replay=("contracts.client_replay", "replay_typestate")))
+    pl.units.append(U("callee.getscript.content", "contracts.bodies", "h_getscript", (), setup=("contracts.client", "setup_typestate")))
+    for sh in ((), ("plain",), ("active",), ("plain", "active"), ("active", "plain")):
+        pl.units.append(U("callee.listscripts.%s" % ("-".join(sh) or "empty"), "contracts.listing", "h_listscripts", (sh,),
+                          setup=("contracts.listing", "setup"), native_ok=True))
+
+    def lf(u, label):
+        return not label.startswith(("R1.", "callee-precondition."))
+
+    pl.label_filter = lf
+    pl.functions = [("sievelib.managesieve", "Client.renamescript")] + \
+                   [("sievelib.managesieve", "Client.%s" % m) for m in ("listscripts", "getscript", "putscript", "setactive", "deletescript")]
     pl.trusted = [common.TRUSTED_SERVER,
                   "callee contracts over the ghost store (listscripts reports the active script separately; getscript "
                   "returns the stored text up to line endings; putscript/setactive/deletescript act as RFC 5804 says; each "
-                  "may be answered NO, or the connection may break before or after the server applied the command); these "
-                  "are the postconditions examined under C09/C17/C08"]
+                  "may be answered NO, or the connection may break before or after the server applied the command); their "
+                  "status clauses (True/data iff OK, False/None iff NO, Error otherwise, one command of the verb), getscript's "
+                  "content clause and listscripts' active-reported-separately clause (on shaped listings) are discharged in this "
+                  "check as well (units callee.*); the wire side is C08"]
     pl.unverified = ["native RENAMESCRIPT path (server announces VERSION): a single command, covered by C08.W4/C09.S3"]
     pl.explanation = (
         "renamescript's emulation is executed symbolically against a ghost server store (arrays over all names) with "
         "each of its five callees replaced by a contract with outcomes OK / NO / connection-broken(applied or not): all "
         "paths = all fault placements x all initial stores. Postconditions from the property text: no other script "
         "touched (in particular the target, active or not), old content survives under one of the names, True implies "
-        "a complete rename with the active flag carried over, only True/False/Error come out.")
+        "a complete rename with the active flag carried over, only True/False/Error come out. The callee contracts used are "
+        "themselves discharged against the real listscripts / getscript / putscript / setactive / deletescript (status "
+        "mapping on all paths; content = all lines; names and active script on shaped listings with symbolic names).")
     return pl
